@@ -32,7 +32,7 @@ WHITE_BOX = ["private running statistics and stored references (twin comparison 
 SIM_TIME_UNIT = "calls into menelaus over all faulted runs (logical time)"
 NAMES = ["a", "b", "c", "d"]
 ARRAY_DETS = {"ADWIN": 20, "CUSUM": 20, "PageHinkley": 20, "KdqTreeStreaming": 14, "PCACD": 5, "KdqTreeBatch": 14, "HDDDM": 20,
-              "CDBD": 16, "NNDVI": 12}
+              "CDBD": 16, "NNDVI": 24}
 LABEL_DETS = {"DDM": 10, "EDDM": 10, "STEPD": 10, "LinearFourRates": 4, "ADWINAccuracy": 8}
 ENSEMBLES = {"BatchEnsemble": 14, "StreamingEnsemble": 14}   # members that store what they are given, behind (view-returning) selectors
 
@@ -106,6 +106,8 @@ def gen(rng, scenario, tier):
     ev = []
     if k == "batch":
         d = adapters.n_features(rng, name)
+        if name == "NNDVI" and rng.random() < 0.4:
+            d = 1      # a single-column frame is already contiguous: "copies" that are no-ops show only here
         bs, _ = workload.batches(rng, rng.randint(5, 10), d, 6, 20, drift_rate=0.5, integer=(name != "NNDVI" and rng.random() < 0.3))
         for j, b in enumerate(bs):
             ev.append([b, rng.choice(CONTAINERS if d > 1 else CONTAINERS[:4]), np_seed(rng)] + (["ref"] if (j > 0 and rng.random() < 0.12) else []))
